@@ -25,7 +25,7 @@ STEPS = ["T", "H", "I", "S"]       # transition to the sibling, handled by the p
 
 
 def bounds(tier):
-  d = dict(LIM[tier]); d["meaning"] = "S = steps after start_at, each T/H/I/S (S = self-transition); ring 1 = the full spy log holds 8 lines; clock mode per phase 0 stands still/1 advances once/2 ticks every call; hosts HsmWithQueues, ActiveObject; live_spy x live_trace"
+  d = dict(LIM[tier]); d["meaning"] = "S = steps after start_at, each T/H/I/S (S = self-transition); ring 1 = the full spy log holds 8 lines and the full trace 2 records (both wrap within the case); clock mode per phase 0 stands still/1 advances once/2 ticks every call; hosts HsmWithQueues, ActiveObject; live_spy x live_trace"
   return d
 
 
@@ -85,6 +85,8 @@ def case(s1, s2, s3, m0, m1, m2, m3, hosti, live, ring=0):
   try:
     # ring = 1: the full spy log holds 8 lines only, so it wraps within the case (a long-running chart's log is always full)
     hsm.HsmEventProcessor.SPY_RING_BUFFER_SIZE = 8 if ring else 500
+    saved_trc = hsm.HsmEventProcessor.TRC_RING_BUFFER_SIZE
+    hsm.HsmEventProcessor.TRC_RING_BUFFER_SIZE = 2 if ring else 500      # ... and the full trace holds 2 records: it is full after the first step
     c, spy_lines, trace_lines = hosts.make(host, ls, lt)
     from miros.event import Event, signals, return_status
     T, H, I = Event(signal="T").signal, Event(signal="H").signal, Event(signal="I").signal
@@ -121,9 +123,10 @@ def case(s1, s2, s3, m0, m1, m2, m3, hosti, live, ring=0):
       chart.temp.fun = P
       return return_status.SUPER
 
-    what = "host=%s live_spy=%d live_trace=%d steps=%s clock=%s%s" % (hosts.HOSTS[host], ls, lt, [s1, s2, s3], [m0, m1, m2, m3], " spy-ring=8" if ring else "")
+    what = "host=%s live_spy=%d live_trace=%d steps=%s clock=%s%s" % (hosts.HOSTS[host], ls, lt, [s1, s2, s3], [m0, m1, m2, m3], " spy-ring=8 trace-ring=2" if ring else "")
     exp_trace, exp_spy = [], []
     seen = 0
+    last_rec = None
     cur = "A"
     standing_tran = False
     phases = [(None, m0), (s1, m1), (s2, m2)] + ([(s3, m3)] if s3 != 4 else [])
@@ -136,9 +139,14 @@ def case(s1, s2, s3, m0, m1, m2, m3, hosti, live, ring=0):
         c.next_rtc()
       hosts.pump_writer(c)
       recs = list(c.full.trace)
-      for r in recs[seen:]:
+      # the records made by this step: those behind the newest record seen so far (the full trace is a ring: with ring=1 it wraps)
+      pos = [i for i, r in enumerate(recs) if r is last_rec]
+      new_recs = recs[pos[-1] + 1:] if (last_rec is not None and pos) else recs
+      for r in new_recs:
         sig = "start_at" if r.signal is None else r.signal
         exp_trace.append("e->%s() %s->%s" % (sig, r.start_state, r.end_state))
+      if recs:
+        last_rec = recs[-1]
       # independent expectation of what the new records are
       want_new = 0
       if st is None:
@@ -147,8 +155,8 @@ def case(s1, s2, s3, m0, m1, m2, m3, hosti, live, ring=0):
         want_new = 1
         if mode == 0:
           standing_tran = True
-      if len(recs) - seen != want_new:
-        return FAIL("trace-record-count", "%s: %d new records after phase %s" % (what, len(recs) - seen, st))
+      if len(new_recs) != want_new:
+        return FAIL("trace-record-count", "%s: %d new records after phase %s" % (what, len(new_recs), st))
       seen = len(recs)
       exp_spy.extend(c.spy_rtc())
     got_trace = [l.strip().split("] ", 2)[-1] for l in trace_lines]
@@ -170,6 +178,7 @@ def case(s1, s2, s3, m0, m1, m2, m3, hosti, live, ring=0):
   finally:
     hsm.stdlib_datetime = real_dt
     hsm.HsmEventProcessor.SPY_RING_BUFFER_SIZE = saved_ring
+    hsm.HsmEventProcessor.TRC_RING_BUFFER_SIZE = 500
 
 
 Family(globals(), "h_live", params=[("s1", 0, 3), ("s2", 0, 3), ("s3", 0, 4), ("m0", 0, 2), ("m1", 0, 2), ("m2", 0, 2), ("m3", 0, 2),
